@@ -95,6 +95,11 @@ def classify_site(out: Outcome, an: Analysis):
         out.labels.add("only-cold-streams")
     if len({s["zone"] for s in case["streams"]}) > 1:
         out.labels.add("multi-zone")
+    if case.get("shape"):
+        out.labels.add(case["shape"])
+    for k, v in (case.get("options") or {}).items():
+        if k.startswith("DO_") and v is True:
+            out.labels.add("opt:" + k)
     us = [u for u in case.get("utilities", []) if u.get("active", True)]
     if not us:
         out.labels.add("no-utilities-given")
